@@ -47,6 +47,7 @@ type FuncReport struct {
 }
 
 type Exec struct {
+	escClosures map[*ssa.Function][]*ssa.Function // closures handed to external code, per function under verification
 	loopFresh *FrameSet // during havocLoop: heaps written only through in-loop allocations
 	prog   *Program
 	fn     *ssa.Function
